@@ -417,9 +417,9 @@ def unit_split(sess, ctx):
             _, va, vk, vref = vcalls[0]
             eng.prove("C09:split:energy-validator-only-without-a-user-validator",
                       len(vcalls) == 1 and Not(Or(vals["validator"][0], vals["val"][0])), props=("C09", "C07"))
-            okv = len(va) == 3 and isinstance(va[0], Fl)
+            okv = len(va) == 3 and (isinstance(va[0], Fl) or is_int(va[0]))      # the default is the int 50
             eng.prove("C09:split:energy-threshold-long-name-wins-over-eth-default-50",
-                      (va[0].t == eth_eff) if okv else False, props=("C09", "C07", "C05"))
+                      (R(va[0]) == eth_eff) if okv else False, props=("C09", "C07", "C05"))
             eng.prove("C07:split:validator-gets-the-reader's-width-and-channels",
                       And(I(va[1]) == rdr_view["sw"], I(va[2]) == rdr_view["ch"]) if okv and is_int(va[1]) and is_int(va[2]) else False,
                       props=("C05", "C07", "C09"))
@@ -569,8 +569,9 @@ def unit_region_split(sess, ctx):
     def run_(eng):
         st = eng.st
         calls = []
-        eng.contracts[QC + "split"] = lambda e, f, sv, a, k: calls.append((tuple(a), dict(k))) or Opq(tag="regions")
-        v = RG.RV("r")
+        regs = Opq(tag="regions")
+        eng.contracts[QC + "split"] = lambda e, f, sv, a, k: calls.append((tuple(a), dict(k))) or regs
+        v = RG.RV("r", "float" if eng.choose(2, None, "region has a start time (is itself a detection)?") == 0 else "none")
         eng.assume(v.wf(eng))
         me = RG.region_obj(eng, v)
         args = {n: Opq(tag=n) for n in ("min_dur", "max_dur", "max_silence", "drop_trailing_silence", "strict_min_dur")}
@@ -591,6 +592,7 @@ def unit_region_split(sess, ctx):
         eng.prove("C05:region-split:max_read-rejected", eff_none, props=("C05", "C09"))
         ok = len(calls) == 1 and len(calls[0][0]) == 1 and calls[0][0][0] == me
         eng.prove("C05:region-split:calls-split-on-itself", ok, props=("C05", "C09"))
+        eng.prove("C05:region-split:returns-exactly-what-split()-returns", res is regs, props=("C05", "C09", "C20"))
         if ok:
             k = calls[0][1]
             eng.prove("C05:region-split:arguments-forwarded", all(k.get(n) is args[n] for n in args) and
